@@ -73,6 +73,15 @@ def r2_callbacks(repo: Repo, rep):
             t = dump(pth) if pth is not None else ""
             rep.check(R, t.endswith(f"'{suffix}'") and "self.path" in t and "self.name" in t, fi.site(c), fi.fq, f"file name path/name{suffix}", t[:80], t[:80])
             suffixes.setdefault(suffix, hook)
+        # the saved mapping is the state dict as returned: nothing is added to / removed from it before the save
+        for c in _saves(fi.node):
+            o = c.args[0] if c.args else None
+            if isinstance(o, ast.Name):
+                edits = [dump(x)[:60] for x in ast.walk(fi.node) if (isinstance(x, ast.Assign) and any(isinstance(t, ast.Subscript) and dump(t.value) == o.id for t in x.targets))
+                         or (isinstance(x, ast.Call) and isinstance(x.func, ast.Attribute) and dump(x.func.value) == o.id and x.func.attr in ("update", "pop", "setdefault", "__setitem__", "clear", "popitem"))
+                         or (isinstance(x, ast.Delete) and any(isinstance(t, ast.Subscript) and dump(t.value) == o.id for t in x.targets))]
+                rep.check(R, not edits, fi.site(c), fi.fq, "the saved mapping has exactly the keys of model.state_dict() (load_state_dict of a fresh model accepts it)", f"edited before the save: {edits[:1]}",
+                          f"{hook}: saved mapping edited {edits[:1]}")
         # no state dict / tensors buffered on self
         buf = [dump(n)[:70] for n in ast.walk(fi.node) if isinstance(n, ast.Assign) and any(isinstance(t, ast.Attribute) and dump(t.value) == "self" for t in n.targets)
                and ("state_dict" in dump(n.value) or "detach" in dump(n.value) or "clone" in dump(n.value))]
@@ -126,6 +135,14 @@ def r2_callbacks(repo: Repo, rep):
             rep.check(R, ok, fi.site(), fi.fq, "trainer.save_checkpoint(path/name.ckpt, weights_only=self.weights_only)", dump(calls[0])[:120] if calls else "no call", dump(calls[0])[:120] if calls else "")
         else:
             rep.check(R, not calls, fi.site(), fi.fq, "no save between the check intervals", str(len(calls)), "extra save")
+    # every checkpoint this callback writes (whatever the hook) carries the configured content
+    for mname, m2 in ts.methods.items():
+        for c in ast.walk(m2.node):
+            if isinstance(c, ast.Call) and isinstance(c.func, ast.Attribute) and c.func.attr == "save_checkpoint":
+                rep.saw(m2)
+                wo = kwarg(c, "weights_only", 1)
+                rep.check(R, wo is not None and dump(wo) == "self.weights_only", m2.site(c), m2.fq, "save_checkpoint(.., weights_only=self.weights_only) in every hook", f"weights_only={dump(wo) if wo is not None else None}",
+                          f"{mname}: weights_only={dump(wo) if wo is not None else None}")
     init = ts.methods.get("__init__")
     for p in paths(init.node, expand_self=False):
         w = p.attrs.get("self.weights_only")
